@@ -10,7 +10,7 @@ RULE = ("C01: besides the model/implementation trace comparison, every generated
 
 
 def run(tier):
-    res = run_prog_check("C01", PROPS, tier, ["c08"], n_quick=2500, n_thorough=30000, rule=RULE)
+    res = run_prog_check("C01", PROPS, tier, ["c08"], n_quick=2500, n_thorough=30000, rule=RULE, exhaustive=["condvar", "chan", "sem"], exh_n=(20, 200))
     if isinstance(res, int):
         return res
     ctx, cases, mo, io = res
